@@ -10,6 +10,12 @@ def run(ctx):
                                              ("normalize", "split")})
     RK.normalize_first(ctx, "R11.f")
     RL.normalisation_loops(ctx, "R11.h")
+    from . import r_rank as RR
+    from . import r_join as RJ
+    RR.matcher_reads_normalised_text(ctx, "R11.i")
+    RJ.join_formula(ctx, "R11.j")
+    RK.lower_rules(ctx, "R11.k")
+    RK.text_methods_use_chars(ctx, "R11.k")
     RK.normalize_assigns_together(ctx, "R11.h")
     return info("Every language table is bound to its role by data-flow from the constant to the Lang::add_* call that "
                 "consumes it and checked entry by entry against Python's unicodedata: composition entries are NFD pair -> NFC "
